@@ -92,4 +92,42 @@ theorem mergeDictColumn_spec (card : Card) (used : Nat → Nat → Bool) (order 
   rw [hn]
   exact hm
 
+/-- every ordinal of a surviving row is in its segment's term bitset (or the segment has none), as
+soon as the surviving rows are among the alive rows the merge was given -/
+theorem usedOf_order (alive : List (Option (List Nat))) (ins : List DictInput) (order : List (Nat × Nat))
+    (halive : ∀ a ∈ order, ∀ rows, alive.getD a.1 none = some rows → a.2 ∈ rows) :
+    ∀ a ∈ order, ∀ o ∈ inputRow (ins.map (·.ords)) a, usedOf alive ins a.1 o = true := by
+  intro a ha o ho
+  unfold usedOf
+  cases hal : alive.getD a.1 none with
+  | none => rfl
+  | some rows =>
+    cases hd : ins[a.1]? with
+    | none => rfl
+    | some d =>
+      simp only
+      split
+      · unfold termBitset
+        rw [List.any_eq_true]
+        refine ⟨a.2, halive a ha rows hal, ?_⟩
+        unfold inputRow at ho
+        rw [List.getElem?_map, hd] at ho
+        simp only [Option.map_some] at ho
+        simpa using ho
+      · rfl
+
+/-- the merged Str / Bytes column with the term bitsets computed by the model -/
+theorem mergeDictColumn_alive (card : Card) (alive : List (Option (List Nat))) (order : List (Nat × Nat))
+    (ins : List DictInput)
+    (hdict : ∀ d ∈ ins, d.dict.Pairwise (· < ·))
+    (hvalid : ∀ a ∈ order, validAddr (ins.map (·.ords)) a)
+    (hfit : card.fits (order.map (inputRow (ins.map (·.ords)))))
+    (hords : ∀ a ∈ order, ∀ o ∈ inputRow (ins.map (·.ords)) a, o < ((ins.map (·.dict)).getD a.1 []).length)
+    (halive : ∀ a ∈ order, ∀ rows, alive.getD a.1 none = some rows → a.2 ∈ rows) :
+    readTerms (mergeDictColumnAs card (usedOf alive ins) order ins).1
+        (mergeDictColumnAs card (usedOf alive ins) order ins).2.1
+        (mergeDictColumnAs card (usedOf alive ins) order ins).2.2
+      = mergeSpec order (ins.map DictInput.readTerms) :=
+  mergeDictColumn_spec card (usedOf alive ins) order ins hdict hvalid hfit hords (usedOf_order alive ins order halive)
+
 end TantivyModel.Columnar
